@@ -461,6 +461,9 @@ func KTOf(s *Sx) func(any) fp.Try[any] {
 	case "kpanic":
 		id, p := s.List[1].Int(), s.List[2].Int()
 		return func(x any) fp.Try[any] { Emit("k%d:%s", id, Show(x)); panic(p) }
+	case "ksuccnil":
+		id := s.List[1].Int()
+		return func(x any) fp.Try[any] { Emit("k%d:%s", id, Show(x)); return fp.Success[any](nil) }
 	}
 	panic("bad KT " + s.String())
 }
@@ -475,6 +478,8 @@ func GenKT(r *Rng, allowPanic bool) *Sx {
 		return L(A("kfail"), I(id), I(r.Range(1, 9)))
 	case k <= 5:
 		return L(A("kfailif"), I(id), I(r.Range(2, 3)), I(r.Range(1, 9)))
+	case k == 6 && r.Intn(3) == 0:
+		return L(A("ksuccnil"), I(id))
 	}
 	return L(A("ksucc"), I(id), I(r.Range(-2, 3)), I(r.Range(-3, 5)))
 }
